@@ -300,6 +300,20 @@ auto make_step_iterator_impl(I const& it, std::ptrdiff_t step, std::true_type)
     return make_step_iterator(it.base(), step);
 }
 
+// If the iterator applies a function object on dereference, put the step in its base and keep the function object:
+// the generic overload above rebuilt the adaptor from the stepped base alone, i.e. with a default constructed function
+// object (the channel index of nth_channel_view, a stateful color converter, ... were lost by the view transformations)
+template <typename Iterator, typename DFn>
+auto make_step_iterator_impl(
+    dereference_iterator_adaptor<Iterator, DFn> const& it,
+    std::ptrdiff_t step,
+    std::true_type)
+    -> typename dynamic_x_step_type<dereference_iterator_adaptor<Iterator, DFn>>::type
+{
+    using result_t = typename dynamic_x_step_type<dereference_iterator_adaptor<Iterator, DFn>>::type;
+    return result_t(make_step_iterator(it.base(), step), it.deref_fn());
+}
+
 // If the iterator is memory_based_step_iterator, change the step
 template <typename BaseIt>
 auto make_step_iterator_impl(
